@@ -887,7 +887,7 @@ fn run_case(id: String, case: &Case) -> CaseOut {
                     } else if !resp.headers().get("upgrade").map(|v| v.as_bytes().eq_ignore_ascii_case(b"websocket")).unwrap_or(false) {
                         why = "101 response without upgrade: websocket".into();
                     }
-                    V::T("ok", vec![])
+                    V::T("ok", vec![V::h(&acc)])
                 }
                 (Err(e), Ok(Err(e2))) => {
                     if e != e2 {
@@ -928,7 +928,7 @@ fn run_case(id: String, case: &Case) -> CaseOut {
                     if h.to_vec() != accept_key(&k) {
                         why = format!("hash_key = {:?}, RFC 6455 gives {:?}", String::from_utf8_lossy(&h), String::from_utf8_lossy(&accept_key(&k)));
                     }
-                    V::T("hash", vec![])
+                    V::T("hash", vec![V::h(h)])
                 }
             };
             out.oracle_ok = why.is_empty();
